@@ -110,16 +110,29 @@ def expected_name_diags(text):
             out.append(("DuplicateVariable", rng_of(text, d["start"], d["end"]), d["name"]))
         else:
             first[d["name"]] = d
-    for u in uses:
+    masked = strip_comments_mask(text)
+    m = re.match(r"\s*vars\s*\{", masked)
+    block_end = masked.find("}", m.end()) if m else -1
+
+    def own_decl(u):
+        """a use inside the vars block sits in the origin of the nearest preceding declaration"""
+        if block_end < 0 or u["start"] > block_end:
+            return None
+        prev = [d for d in decls if d["start"] < u["start"]]
+        return prev[-1] if prev else None
+
+    def bound(u):
         d = first.get(u["name"])
         if d is None or d["start"] > u["start"]:
+            return False
+        return own_decl(u) is not d          # a declaration is not visible in its own origin
+
+    for u in uses:
+        if not bound(u):
             out.append(("UnboundVariable", rng_of(text, u["start"], u["end"]), u["name"]))
-    used = set(u["name"] for u in uses)
     for name, d in first.items():
-        # a use *before* the declaration still marks it used in the implementation? no: the checker
-        # deletes the name from the unused set on every use, and a use before the declaration happens
-        # before the insertion; such a declaration stays unused unless used again later
-        if not any(u["name"] == name and u["start"] > d["start"] for u in uses):
+        # used = referenced after the declaration is complete
+        if not any(u["name"] == name and u["start"] > d["start"] and own_decl(u) is not d for u in uses):
             out.append(("UnusedVar", rng_of(text, d["start"], d["end"]), name))
     return sorted(out)
 
@@ -131,7 +144,39 @@ def name_edit(text, rng):
     decls, uses = scan_vars(text)
     if not decls:
         return None
-    kind = rng.choice(["del-decl", "dup-decl", "rename-decl", "rename-use", "move-decl-last", "add-unused"])
+    kind = rng.choice(["del-decl", "dup-decl", "rename-decl", "rename-use", "self-ref", "forward-ref", "origin-var", "add-unused"])
+    if kind in ("self-ref", "forward-ref", "origin-var"):
+        masked = strip_comments_mask(text)
+        origins = [d for d in decls if "=" in masked[d["end"]:masked.find("\n", d["end"])]]
+        if not origins:
+            # add a declaration with an origin
+            m0 = re.match(r"\s*vars\s*\{\n?", text)
+            if not m0:
+                return None
+            if kind == "self-ref":
+                return text[:m0.end()] + '  account $selfish = meta($selfish, "k")\n' + text[m0.end():], kind
+            if kind == "forward-ref":
+                return text[:m0.end()] + '  monetary $fwd = balance($later, USD)\n  account $later\n' + text[m0.end():], kind
+            return text[:m0.end()] + '  account $before\n  monetary $fromvar = balance($before, USD)\n' + text[m0.end():], kind
+        d = rng.choice(origins)
+        le = text.find("\n", d["end"])
+        line = text[d["end"]:le]
+        am = re.search(r"\(@[a-zA-Z0-9_:-]+", line)
+        if not am:
+            return None
+        if kind == "self-ref":
+            repl = "($" + d["name"]
+        elif kind == "forward-ref":
+            later = [x for x in decls if x["start"] > d["start"] and x["type"] == "account"]
+            if not later:
+                return None
+            repl = "($" + rng.choice(later)["name"]
+        else:
+            earlier = [x for x in decls if x["start"] < d["start"] and x["type"] == "account"]
+            if not earlier:
+                return None
+            repl = "($" + rng.choice(earlier)["name"]
+        return text[:d["end"] + am.start()] + repl + text[d["end"] + am.end():], kind
     if kind == "del-decl":
         d = rng.choice(decls)
         # remove the whole line of the declaration
